@@ -67,10 +67,17 @@ def order_jobs(tier):
     ]
     if tier == "quick":
         nets = nets[:3]
+    # points given without coordinates (mode omit): gama-g3 derives them from the vectors in passes over the
+    # records, forwards (to = from + v) or backwards (from = to - v) depending on which end is known - the
+    # known point is the first, the middle or the last one
+    # ... with all three vectors, and with every spanning pair of them (chains: a point two vectors away from the
+    # known one is reached only after the pass that reached its neighbour)
+    known = (("xx", "ff", "ff"), ("ff", "xx", "cf"), ("ff", "ff", "xx"))
+    nets = [n + (None,) for n in nets] + [(("vector",), rs, st, ("omit",)) for st in known for rs in (None, (0, 1), (0, 2), (1, 2))]
     jobs = []
     for pl in P:
-        for (types, recs, status) in nets:
-            for mode in (("pert",) if tier == "quick" else ("true", "pert")):
+        for (types, recs, status, modes) in nets:
+            for mode in (modes or (("pert",) if tier == "quick" else ("true", "pert"))):
                 sp = {"place": pl, "npts": 3, "types": types, "status": status, "mode": mode}
                 if recs is not None:
                     sp["recs"] = recs
